@@ -96,6 +96,27 @@ DECOY_PATHS = [[[10, 10], [14, 12]], [[11, 13], [10, 10]], [[14, 14], [12, 11]]]
 DECOY_QUERIES = [(10, 10), (14, 14), (0, 0), (12, 12.5)]
 
 
+COND_PATHS = [[[0, 0], [7, 1]], [[3, 6], [1, 2]], [[7, 7], [5, 4]], [[2, 7], [6, 0]]]
+
+
+def condition():
+    """Heavy use of an *earlier, unrelated* index, made identically before every index under
+    test (exploration and replay alike): queries in every cell, all paths removed one by one,
+    queries on the emptied grid.  Whatever a class remembers outside the instance (a memo of
+    empty neighbourhoods, a shared cell list) is then in its worst state, deterministically."""
+    spatial_grid = _lib()
+    cond = spatial_grid.Index([[list(a), list(b)] for a, b in COND_PATHS], 8, True)
+    spots = [(col + 0.5, row + 0.5) for col in (-1, 3, 8) for row in (-1, 4, 8)]
+    for victim in range(len(COND_PATHS)):
+        for spot in spots:
+            cond.nearest(list(spot))
+        cond.remove_path(victim)
+    for col in range(8):
+        for row in range(8):
+            if cond.nearest([col * 0.875 + 0.4, row * 0.875 + 0.4]) is not None:
+                raise AssertionError("conditioning index not empty")
+
+
 def _decoy_view(decoy):
     return ([list(c) for c in decoy.grid], list(decoy.lookup),
             [decoy.nearest(list(q)) for q in DECOY_QUERIES])
@@ -110,6 +131,7 @@ def explore_index(paths, bins, reverse, queries, part):
     orders = list(itertools.permutations(range(n_paths)))
     for order in orders:
         try:
+            condition()
             decoy = spatial_grid.Index([[list(a), list(b)] for a, b in DECOY_PATHS], 3, True)
             decoy_before = _decoy_view(decoy)
             index = spatial_grid.Index([[list(p[0]), list(p[1])] for p in paths], bins, reverse)
@@ -239,6 +261,7 @@ def _big_job(args):
              "stride": [(i * 7) % n_paths for i in range(n_paths)] if n_paths % 7 else
              [(i * 11) % n_paths for i in range(n_paths)]}[order_kind]
     desc = f"Index(<{n_paths} paths>, {bins}, {reverse})"
+    condition()
     spatial_grid.Index([[list(a), list(b)] for a, b in DECOY_PATHS], 3, True)
     index = spatial_grid.Index([[list(p[0]), list(p[1])] for p in paths], bins, reverse)
     end_cells = [(ident, pt, cell_of(index, pt)) for ident, pt in ends_of(paths, reverse)]
@@ -357,7 +380,8 @@ def replay(case):
     if case["query"] is None:
         explore_index(paths, case["bins"], case["reverse"], [], part)
         return [v["msg"] for v in part.violations]
-    spatial_grid.Index([[list(a), list(b)] for a, b in DECOY_PATHS], 3, True)   # as in exploration
+    condition()                                                                 # as in exploration
+    _decoy_view(spatial_grid.Index([[list(a), list(b)] for a, b in DECOY_PATHS], 3, True))
     index = spatial_grid.Index([[list(p[0]), list(p[1])] for p in paths], case["bins"],
                                case["reverse"])
     end_cells = [(i, pt, cell_of(index, pt)) for i, pt in ends_of(paths, case["reverse"])]
